@@ -8,7 +8,8 @@ yield of the real generators; symbolic: shuffle-buffer size b, parallelism T, ra
   shuffled concurrent:   shards opened - shards delivered <= T (round robin) + W (lazy-pool window; the real pool's
                          2T+3 bound is the C13 pocomp query `read-ahead`)
   async:                 shards opened - shards delivered <= T
-  rust:                  Python side reads nothing ahead (paths only); native side: C15
+  rust:                  Python side reads nothing ahead (paths only) and starts the native reader with <= T threads;
+                         native side (read-ahead <= threads): C15
   every path:            shard paths pulled from the repeating source - shards delivered <= S + 1 + the above
                          (S = number of shards: the shard-level shuffle buffer holds path STRINGS, not data)
 """
@@ -54,10 +55,12 @@ def scenario(e, cfg, built=None):
         shuffled = bool(cfg["shuffled"])
         # repeating + shuffled streams fork at every pull (shard-level and example-level index): keep those small
         small = repeat and shuffled
-        b = e.fresh_int("shuffle", 1, 2 if small else N + 1) if shuffled else 0
+        # the sync path forks only in the example-level buffer: there the buffer may also cover the whole split (b >= N)
+        wide = small and iface == "numpy" and cfg["layout"] == "two-shards"
+        b = e.fresh_int("shuffle", 1, (N + 1 if wide else 2) if small else N + 1) if shuffled else 0
         tiny = small and iface in ("concurrent", "async")  # + round-robin and pool-order forks at every element
         T = e.fresh_int("T", 1, 2 if tiny else S + 1)
-        k = e.fresh_int("take", 1, (2 if tiny else N + 1 if small else 2 * N + 1) if repeat else N)
+        k = e.fresh_int("take", 1, (2 if (tiny or wide) else N + 1 if small else 2 * N + 1) if repeat else N)
         mon = iterscen.Monitor()
         cap = 6 * (N + S) + 40
         pulls = [0]
@@ -105,6 +108,13 @@ def scenario(e, cfg, built=None):
                     e.prove(pulls[0] <= epoch_opens + S + 1 + (slack if slack is not None else 1),
                             f"{iface}/{cfg['layout']}: {pulls[0]} shard paths taken from the repeating source, {epoch_opens} opened",
                             dict(kind=f"{iface}-path-read-ahead"))
+                if iface == "rust" and mon.rust is not None:
+                    # the native reader reads at most `threads` shards ahead (C15): the Python side must not ask for more
+                    # reader threads than the caller configured, whatever the number of shards
+                    for inst in mon.rust.instances:
+                        e.prove(inst.threads <= T, f"rust/{cfg['layout']} repeat={repeat}: the native reader was started with "
+                                f"{inst.threads} threads for file_parallelism={T} ({len(inst.files)} shard files): its read-ahead "
+                                f"grows with the dataset, not with the configured parallelism", dict(kind="rust-threads-exceed-parallelism"))
                 if yielded >= k:
                     break
             gen.close()
